@@ -187,7 +187,8 @@ func RandomCFG(r *rng.R, p CFGParams) *Spec {
 	}
 	// a nonterminal spelled like a word yacc or yaccgo gives a meaning elsewhere (never emitted as an identifier)
 	if r.Chance(1, 10) {
-		words := []string{"error", "token", "type", "union", "left", "right", "prec", "nonassoc", "empty", "precedence"}
+		words := []string{"error", "token", "type", "union", "left", "right", "prec", "nonassoc", "empty", "precedence",
+			"graph", "node", "edge", "digraph", "subgraph", "strict", "Graph", "NODE"}
 		w := words[r.Intn(len(words))]
 		taken := false
 		for _, n := range s.NTs {
@@ -201,7 +202,11 @@ func RandomCFG(r *rng.R, p CFGParams) *Spec {
 			}
 		}
 		if !taken {
-			s.NTs[r.Intn(len(s.NTs))].Name = w
+			k := r.Intn(len(s.NTs))
+			if r.Chance(1, 2) {
+				k = s.Start // a graph-description language starts with `graph`, a tree grammar with `node`
+			}
+			s.NTs[k].Name = w
 		}
 	}
 	// names with letters outside ASCII (the lexer takes any Unicode letter; Go and TypeScript identifiers do, too)
